@@ -3,7 +3,7 @@ Tie for C05: source facts regenerated from /repo on every run (Gen/FactsC05.lean
 model in Model/C05.lean was written against. The branch conditions of balanceBlock (comparator
 order, trySlot's three tests, the two passes, the `safe` loop, the wantDev loop, the final
 underreplicated/unsafeToDelete test and the trash/lost/pull/stay switch, in source order), of
-cleanupMounts and of computeBlockState, the text of setupLookupTables and rendezvousLess, and the
+cleanupMounts, setupLookupTables and computeBlockState, the text of rendezvousLess, and the
 JSON field names / field sources of Trash and Pull. An edit to any of them breaks an `rfl` here.
 -/
 import ArvVerif.Gen.FactsC05
@@ -75,10 +75,13 @@ theorem tie_cleanupConds : cleanupConds =
    "if mnt.ReadOnly && rwdev[mnt.DeviceID] != nil",
    "if mnt.Replication <= 0"] := rfl
 
-/-- setupLookupTables (`effMount`, `classesOf`): read-only propagation, default class for mounts
-without classes, class keys (values ignored), classes sorted -/
-theorem tie_setup : setupText =
-  "{ bal.serviceRoots = make(map[string]string) bal.classes = defaultClasses bal.mountsByClass = map[string]map[*KeepMount]bool{\"default\": {}} bal.mounts = 0 for _, srv := range bal.KeepServices { bal.serviceRoots[srv.UUID] = srv.UUID for _, mnt := range srv.mounts { bal.mounts++ mnt.ReadOnly = mnt.ReadOnly || srv.ReadOnly if len(mnt.StorageClasses) == 0 { bal.mountsByClass[\"default\"][mnt] = true continue } for class := range mnt.StorageClasses { if mbc := bal.mountsByClass[class]; mbc == nil { bal.classes = append(bal.classes, class) bal.mountsByClass[class] = map[*KeepMount]bool{mnt: true} } else { mbc[mnt] = true } } } } sort.Strings(bal.classes) }" := rfl
+/-- setupLookupTables (`effMount`, `classesOf`): a mount without classes goes to "default"; a class
+seen for the first time is appended to `bal.classes`; the classes are sorted at the end. (The
+read-only propagation `mnt.ReadOnly || srv.ReadOnly` is an assignment, not a fact kind; it is
+covered by the correspondence check and the read-only oracle.) -/
+theorem tie_setupConds : setupConds = ["if len(mnt.StorageClasses) == 0", "if mbc == nil"] := rfl
+theorem tie_setupCalls : setupCalls = ["append", "sort.Strings"] := rfl
+theorem tie_setupStrings : setupStrings = ["default", "default"] := rfl
 
 /-- rendezvousLess: md5(hash ++ device id) compared bytewise (the driver's `devLess`) -/
 theorem tie_rendezvousLess : rendezvousLessText =
